@@ -76,6 +76,20 @@ def top_jobs(tier):
         out += [T(3, s) for s in (0, 1, 2, 1 + 4, 1 + 4 + 16, 2 + 4 * 2)]
     return out
 
+def C(alerting, syntaxerr, hasfor, haskff, nlab, nann, nglab):
+    return {"name": "C-a%d-e%d-f%d%d-l%d-n%d-g%d" % (alerting, syntaxerr, hasfor, haskff, nlab, nann, nglab), "func": "VerifHarness_ChecksHypothesis",
+            "params": {"alerting": alerting, "syntaxerr": syntaxerr, "hasfor": hasfor, "haskff": haskff, "nlab": nlab, "nann": nann, "nglab": nglab},
+            "unwind": 40, "reach": ["end"]}
+
+def checks_jobs(tier):
+    out = []
+    for se in (0, 1):
+        out += [C(0, se, 0, 0, nl, -1, ng) for nl in (-1, 0, 2) for ng in (-1, 1)]
+        for f, k in ((0, 0), (1, 0), (0, 1), (1, 1)):
+            for nl, na, ng in ((-1, -1, -1), (1, 1, -1), (2, 0, 1), (0, 2, 0), (-1, 1, 2)) if tier == "quick" else [(a, b, c) for a in (-1, 0, 1, 2) for b in (-1, 0, 1, 2) for c in (-1, 0, 1, 2)]:
+                out.append(C(1, se, f, k, nl, na, ng))
+    return out
+
 COMMON = ["harness/C01/nodes.go", "harness/C01/ref.go"]
 
 PROP = {
@@ -85,6 +99,7 @@ PROP = {
         {"pkg": "./internal/parser", "harness": COMMON + ["harness/C01/rule.go"], "intmode": True, "jobs": rule_jobs},
         {"pkg": "./internal/parser", "harness": COMMON + ["harness/C01/group.go"], "intmode": True, "jobs": group_jobs},
         {"pkg": "./internal/parser", "harness": COMMON + ["harness/C01/top.go"], "intmode": True, "jobs": top_jobs},
+        {"pkg": "./internal/checks", "harness": ["harness/C01/checks.go"], "intmode": True, "jobs": checks_jobs},
     ],
     "bounds": {"rule mapping": "quick <= 3 key/value pairs (+ 4 pairs starting with record/alert), thorough <= 4; <= 2 collection values with <= 2 entries each",
                "group mapping": "quick <= 3 pairs (+ samples of 4), thorough <= 4; <= 2 collection values of <= 4 child nodes",
@@ -92,10 +107,10 @@ PROP = {
                "texts": "each scalar: its role's key words / '', '~', 'null', '5m', '0s', '__name__' or one of 2 anonymous strings",
                "tags": "str,int,float,bool,null,timestamp,map,seq (+ explicit-tag world: Kind and Tag independent, binary excluded)",
                "positions": "concrete distinct lines/columns, symbolic 1..9 in the symlines jobs"},
-    "assumptions": ["lemma R's hypothesis on the checks: promql/syntax reports every expr the PromQL parser rejects, alerts/for every invalid for/keep_firing_for, alerts/template every label/annotation value that fails to parse as a template (Bug/Fatal)",
+    "assumptions": ["lemma R's hypothesis on the checks (promql/syntax reports every expr the PromQL parser rejects, alerts/for every invalid for/keep_firing_for, alerts/template every label/annotation value that fails to parse as a template, each as Bug/Fatal) is proved by the fourth run on the real checks; that these checks are enabled by default and that parser errors reach ErrorCheck (config.GetChecksForEntry) is assumed",
                     "node invariant of the yaml.v3 parser (DESIGN App. C): collections have no text, scalars no children, tags as resolved by the parser (explicit=0)",
                     "name validation scheme is pint's default (UTF-8): metric/label names valid iff non-empty valid UTF-8, label values iff valid UTF-8",
                     "cuts G/T: a clean child is accepted or dropped by the reference (the lemma one level down); a null group node has pint name ''"],
     "outside": ["bytes -> yaml.Node (yaml.v3 scanner/parser)", "Parser.Parse document loop and multi-document files", "aliases, anchors, merge keys, !!binary", "# pint comments (excluded by the property)", "Thanos schema (partial_response_strategy)", "legacy name validation scheme",
-                "the checks themselves (hypothesis of lemma R)"],
+                "check selection/routing in internal/config", "the label-flow half of alerts/template (cut; C04)"],
 }
